@@ -349,3 +349,154 @@ def impl_robust(case):
             out["evals"].append(_cls(e))
             out.setdefault("msgs", []).append(f"{mode}: {type(e).__name__}: {str(e)[:150]}")
     return out
+
+
+# ------------------------------------------------------------------ purity and reproducibility (C14)
+
+def impl_repro(case):
+    import copy
+    import hashlib
+    import json as _json
+    import pickle
+
+    from bartiq import compile_routine, evaluate
+    from bartiq.transform import add_aggregated_resources
+    from hier import to_qref
+    from qref import SchemaV1
+
+    if case.get("warm"):
+        # unrelated work first: caches (lru_cache in _value_of, sympy's own) and interned objects are now warm
+        import random
+
+        from hier import gen_hierarchy
+        wr = random.Random(12345)
+        for _ in range(case["warm"]):
+            try:
+                compile_routine(to_qref(gen_hierarchy(wr, max_depth=2)))
+            except Exception:
+                pass
+    doc = SchemaV1(**to_qref(case["routine"]))
+    before = doc.model_dump_json()
+    res1 = compile_routine(doc)
+    out = {"mutated_input_doc": doc.model_dump_json() != before}
+    res2 = compile_routine(doc)
+    exp1 = res1.to_qref().model_dump_json()
+    exp2 = res2.to_qref().model_dump_json()
+    out["compile_repeatable"] = exp1 == exp2 and res1.routine == res2.routine
+    out["export_sha"] = hashlib.sha256(exp1.encode()).hexdigest()
+    out["export"] = _json.loads(exp1)
+    # export must not change the compiled routine, and be repeatable
+    snap = pickle.dumps(res1.routine)
+    exp1b = res1.to_qref().model_dump_json()
+    out["export_pure"] = pickle.dumps(res1.routine) == snap and exp1b == exp1
+    # evaluate
+    params = list(res1.routine.input_params)
+    assign = {p: (i % 3) + 1 for i, p in enumerate(params)}
+    a_before = copy.deepcopy(assign)
+    try:
+        e1 = evaluate(res1.routine, assign)
+        e2 = evaluate(res1.routine, assign)
+        out["evaluate_pure"] = pickle.dumps(res1.routine) == snap and assign == a_before
+        out["evaluate_repeatable"] = e1.routine == e2.routine
+        out["eval_sha"] = hashlib.sha256(e1.to_qref().model_dump_json().encode()).hexdigest()
+    except Exception as ex:
+        out["evaluate_pure"] = pickle.dumps(res1.routine) == snap and assign == a_before
+        out["evaluate_repeatable"] = True
+        out["eval_sha"] = "exc:" + type(ex).__name__
+    # aggregation
+    names = sorted({r for r in res1.routine.resources})
+    d = {names[0]: {"zz_base": 2}} if names else {"none": {"zz_base": 1}}
+    d_before = copy.deepcopy(d)
+    g1 = add_aggregated_resources(res1.routine, d)
+    g2 = add_aggregated_resources(res1.routine, d)
+    out["aggregate_pure"] = pickle.dumps(res1.routine) == snap and d == d_before
+    out["aggregate_repeatable"] = g1 == g2
+    return out
+
+
+# ------------------------------------------------------------------ QREF export / import (C13)
+
+def walk_routine(r, flags):
+    """An uncompiled bartiq Routine in the generator's JSON format."""
+    def ex(v):
+        e, inex = from_sympy(v)
+        if inex:
+            flags["inexact"] = True
+        return e
+
+    rep = None
+    if r.repetition is not None:
+        s = r.repetition.sequence
+        k = s.type
+        if k == "constant":
+            seq = {"kind": k, "multiplier": ex(s.multiplier)}
+        elif k == "arithmetic":
+            seq = {"kind": k, "initial_term": ex(s.initial_term), "difference": ex(s.difference)}
+        elif k == "geometric":
+            seq = {"kind": k, "ratio": ex(s.ratio)}
+        elif k == "closed_form":
+            seq = {"kind": k, "sum": None if s.sum is None else ex(s.sum), "prod": None if s.prod is None else ex(s.prod),
+                   "num_terms_symbol": str(s.num_terms_symbol)}
+        else:
+            seq = {"kind": k, "term_expression": ex(s.term_expression), "iterator_symbol": str(s.iterator_symbol)}
+        rep = {"count": ex(r.repetition.count), "sequence": seq}
+    return {
+        "name": r.name, "type": r.type, "input_params": list(r.input_params),
+        "local_variables": [[k, ex(v)] for k, v in r.local_variables.items()],
+        "linked_params": [[s, [[t[0], t[1]] for t in ts]] for s, ts in r.linked_params.items()],
+        "ports": [{"name": p.name, "direction": str(getattr(p.direction, "value", p.direction)), "size": ex(p.size)} for p in r.ports.values()],
+        "resources": [{"name": x.name, "type": x.type.value, "value": ex(x.value)} for x in r.resources.values()],
+        "connections": [[_ep(s), _ep(t)] for s, t in r.connections.items()],
+        "repetition": rep,
+        "children": [walk_routine(c, flags) for c in r.children.values()],
+    }
+
+
+def impl_qref(case):
+    from bartiq import CompiledRoutine, Routine, compile_routine
+    from bartiq import sympy_backend as B
+    from hier import to_qref
+    from qref import SchemaV1
+
+    flags = {"inexact": False}
+    doc = SchemaV1(**to_qref(case["routine"]))
+    out = {}
+
+    def stage(name, fn):
+        try:
+            out[name] = {"ok": True, **fn()}
+        except BaseException as e:  # noqa: BLE001
+            if type(e).__name__ == "CaseTimeout":
+                raise
+            out[name] = {"ok": False, "exc": type(e).__name__, "msg": str(e)[:200]}
+
+    state = {}
+
+    def uncompiled():
+        r = Routine.from_qref(doc, B)
+        d = r.to_qref(B)                       # pydantic validates the exported document on construction
+        SchemaV1(**d.model_dump())             # ... and it must survive a dump / reload as well
+        r2 = Routine.from_qref(d, B)
+        state["reexported"] = d
+        return {"a": walk_routine(r, flags), "b": walk_routine(r2, flags)}
+
+    def compiled():
+        c = compile_routine(doc)
+        d = c.to_qref()
+        SchemaV1(**d.model_dump())
+        c2 = CompiledRoutine.from_qref(d, B)
+        state["c"] = c
+        return {"a": walk_compiled(c.routine, flags), "b": walk_compiled(c2, flags)}
+
+    def recompiled():
+        c3 = compile_routine(state["reexported"])
+        return {"a": walk_compiled(state["c"].routine, flags), "b": walk_compiled(c3.routine, flags)}
+
+    stage("uncompiled", uncompiled)
+    stage("compiled", compiled)
+    if out["uncompiled"]["ok"] and out["compiled"]["ok"]:
+        stage("recompiled", recompiled)
+    else:
+        out["recompiled"] = {"ok": False, "exc": "skipped"}
+    out["inexact"] = flags["inexact"]
+    return out
